@@ -21,10 +21,13 @@ CONFIG = {
               "vector), C11_unit_is_edit_spec (= edit_spec for a unit clause), C11_unit_idx_ok + C11_reflatten (the edited vector is a "
               "non-empty post-order; the DFS re-flattening preserves function and count); C11_unit_WF / C11_unit_WFQ (when the edited "
               "vector has no dead node it is WF and WFQ again: decomposable, smooth, complete, deterministic, unique leaves, reachable, "
-              "non-zero literals) and therefore, composed with the C02 / C03 / C05 theorems about the query ALGORITHMS, "
+              "non-zero literals) and therefore, composed with the C02 / C03 theorems about the query ALGORITHMS, "
               "C11_unit_then_count (execute_query on the edited vector, every strategy, every Clean state: MCA C n (l :: A)), "
-              "C11_unit_then_sat, C11_unit_then_core (syntactic core = literals in all models containing l); enumeration and "
-              "sampling follow the same way from C06 / C07 (which take WFQ of the vector as hypothesis); "
+              "C11_unit_then_sat; enumeration and sampling follow the same way from C06 / C07 (which take WFQ of the vector as "
+              "hypothesis); C11_unit_then_core / C11_unit_then_core_models (the cached core that rebuild recomputes, with the repaired "
+              "calculate_core of F22: In x (calculate_core (unit_edit C l) n) <-> every model of C containing l contains x - for EVERY "
+              "unit edit, no hypothesis on the edited vector, dead nodes included) via C11_unit_enum_root (enum_root (unit_edit C l) = "
+              "filter (okA [l]) (enum_root C), list equality); "
               "reduce_clause (C11_reduce_clause, _skipped, _kept, C11_prepare_no_panic); the specification "
               "(C11_edit_spec_add: adding is conjunction, tautologies and duplicates absorbed; C11_edit_spec_rmv; "
               "C11_edit_spec_features). "
@@ -40,21 +43,24 @@ CONFIG = {
               "C11_retain_is_edit_spec: it is the removal step of the specification for any number of removed clauses; "
               "C11_adjust_removal_is_edit_spec: on a stored list of duplicate-free, non-tautological, non-unit clauses the whole of "
               "adjust_intern_cnf is the specification's removal; C11_retain_v0_single). "
-              "REFUTED on the faithful model (vm_compute witnesses): C11_unit_core_refuted (K4: dead branch after a unit edit, vector "
-              "neither no_dead nor smooth, syntactic core under-reports), C11_removal_after_simplify_refuted (K8), "
+              "REFUTED on the faithful model (vm_compute witnesses): C11_removal_after_simplify_refuted (K8), "
               "C11_recompile_adjusts_twice_refuted (K38: an edit answered Recompile adjusts the stored list twice and loses a clause "
-              "shortened to a removed one). About the code BEFORE the repairs: C11_multi_removal_refuted_v0 (K23), "
+              "shortened to a removed one). About the code BEFORE the repairs: C11_unit_core_refuted (K4, repaired by F22: dead branch after a "
+              "unit edit, vector neither no_dead nor smooth, calculate_core_v0 under-reports while calculate_core is exact), "
+              "C11_multi_removal_refuted_v0 (K23), "
               "C11_cache_matches_partial_refuted_v0 (K25), C11_dispatch_unit_drops_removal_v0 (K26), "
               "C11_undo_stale_after_unit_refuted_v0 (K34). "
-              "With dead nodes after the edit (K4 class, about 1 % of the unit edits of the run) only C11_unit_sem / C11_unit_count "
-              "speak about the vector; check_wf is then evaluated per dumped vector modulo dead or-children (strip_dead) and every "
-              "answer is judged by the truth table. "
+              "With dead nodes after the edit (K4 class, about 1 % of the unit edits of the run) C11_unit_sem / C11_unit_count / "
+              "C11_unit_then_core speak about the vector; check_wf is then evaluated per dumped vector modulo dead or-children "
+              "(strip_dead), the cached core is compared with the model's calculate_core on every dumped vector and every answer is "
+              "judged by the truth table. "
               "SPEC + CORRESPONDENCE ONLY (not modelled): closest_unsplitable_bridge, find_bridges, divide_bridge, "
               "transform_to_cnf_from_starting_cnf, switch_sub_dag, recompile_everything, the undo cache contents - every answer after "
               "every edit is judged against the truth table of edit_spec on the source formula. "
-              "On /repo + F14-F17 the property FAILS in 17 recorded input classes (K3 K4 K8 K20-K22 K24 K27-K33 K35 K37 K38), each with "
+              "On /repo + F14-F17 + F22 the property FAILS in 16 recorded input classes (K3 K8 K20-K22 K24 K27-K33 K35 K37 K38), each with "
               "its own signature; every one is re-established on every run by a minimal history (corpus in harness/src/k_c11.rs). "
-              "K23 K25 K26 K34 are `fixed:`; their signatures stay as DETECTORS without a finding line (an occurrence is a VIOLATION). "
+              "K4 K23 K25 K26 K34 are `fixed:`; their signatures stay as DETECTORS without a finding line (an occurrence is a VIOLATION; "
+              "edit:dead-branch-core fires against a tree without F22). "
               "Against a tree WITHOUT the four repairs the check reports VIOLATION (edit:undo-stale, edit:undo-partial-match, "
               "edit:unit-add-drops-removal, wrong counts after multi-clause removals) and dispatch DIFFs",
     "assumptions": [
